@@ -3,6 +3,7 @@ import GufoSnmp.Model.Policer
 import GufoSnmp.Driver.SessionCmd
 import GufoSnmp.Model.Socket
 import GufoSnmp.Model.PyClient
+import GufoSnmp.Model.Timing
 import GufoSnmp.Model.Crypto.Md5
 import GufoSnmp.Model.Crypto.Sha1
 import GufoSnmp.Model.Crypto.Des
@@ -339,6 +340,25 @@ def handle (line : String) : String :=
         (PrivKey.new alg >>= fun k0 => k0.asLocalized key 0 >>= fun k1 =>
           k1.decrypt ciphers data ⟨[], boots, time, [], [], pp⟩)
     | _, _, _, _, _, _ => bad
+  | ["recvsched", mode, t, d, arrivals] =>
+    let parseArr (x : String) : Option Timing.Arrival :=
+      match x.splitOn ":" with
+      | [a, "r"] => a.toNat?.map (⟨·, .reply⟩)
+      | [a, "s"] => a.toNat?.map (⟨·, .stray⟩)
+      | [a, "g"] => a.toNat?.map (⟨·, .garbage⟩)
+      | _ => none
+    let showEnd : Timing.End → String
+      | .delivered x => s!"ok delivered {x}"
+      | .timeout x => s!"ok timeout {x}"
+      | .decodeError x => s!"ok decodeerror {x}"
+    match t.toNat?, d.toNat?, parseList parseArr arrivals with
+    | some t, some d, some arr =>
+      (match mode with
+       | "sync" => showEnd (Timing.syncRecv t d 0 0 arr)
+       | "old" => showEnd (Timing.syncRecvOld t d 0 arr)
+       | "async" => showEnd (Timing.asyncRecv t d 0 0 arr)
+       | _ => bad)
+    | _, _, _ => bad
   | ["policer", d, tss] =>
     match parseInt d, parseList parseInt tss with
     | some d, some tss => cmdPolicer d tss
